@@ -180,6 +180,21 @@ CLAIMED["C20"] = (
     "DESIGN.md section 6, C20",
 )
 
+CLAIMED["C08"] = (
+    "Coq theorems: the evaluated clips are exactly the predicted clips whose id is annotated (prediction order), each against "
+    "annotations of the same clip; for every valid solver answer every annotated and every predicted sound event, with or "
+    "without geometry, occurs in exactly one match (so the ClipEvaluation validator of C04 cannot fire); a pair has positive "
+    "affinity, reports exactly that affinity and as score the probability the prediction gives to the annotation's class "
+    "(1 - sum for an unlabelled annotation); unpaired events report 0 / 0; scores aggregate as means (0 when empty). "
+    "Correspondence compares, per evaluated clip, the multiset of (source, target, affinity, score), the clip score, the "
+    "evaluated clip ids in order and the overall score.",
+    "Trusted: Coq kernel/vm_compute; the affinity matrix, the solver's assignment and the encoders' outputs are recorded from "
+    "the real functions and are inputs of the model (their own properties: C06, C07, C19); float32 score storage (scores in "
+    "1/16 steps are exact), means compared to 1e-9.",
+    "Rocq/Coq proof (built on the C07 matching theorems) + model/implementation correspondence by vm_compute",
+    "DESIGN.md section 6, C08",
+)
+
 NOT_YET = {}
 
 
